@@ -280,6 +280,7 @@ impl Prop for C06 {
     const RULE: &'static str = "proptest-generated planner cases run under real wall-clock limits T in {0, 1, 5, 20, 50} ms (PRM build time in {0, 1, 5, 20} ms), no iteration budget: feasible worlds and four infeasible families (goal sealed by a closed shell of thickness >= 1.1 L, goal region entirely invalid, start sealed in, and a feasible query followed by setup() with a checker whose world seals the goal) x 4 planners x 6 kinds x parameters x seeds; 10% degenerate resolutions (longest-valid-segment fraction 0 / negative / -0.0, then solve(100 ms)). Oracle: elapsed <= T + 1 s for solve and construct_roadmap (an overshoot must repeat in 3 more runs of the same case to count), Ok(path) on an infeasible world is a violation, and a call that does not return within the 20 s watchdog is a violation ('blocks indefinitely'). Non-trivial = infeasible world, a deadline that actually fired (Err(Timeout)), or a degenerate resolution.";
     const HANG_IS_VIOLATION: bool = true;
     const WATCHDOG_S: u64 = 20;
+    const MAX_SHRINK_ITERS: u32 = 100;
     fn random_cases(tier: Tier) -> usize {
         tier.pick(4_000, 40_000)
     }
